@@ -18,7 +18,8 @@ import (
 //	     3..6 = attached like 2 and then detached again: 3 RemoveNodeInterface, 4 RemoveAllNodeInterfaces,
 //	     5 RemoveSentMessage, 6 RemoveAllSentMessages;
 //	     7, 8 = sent by an interface that has NO bus, removed from it (7 RemoveAllSentMessages, 8 RemoveSentMessage)
-//	     and only then the interface is attached to a bus: the message is not attached to anything
+//	     and only then the interface is attached to a bus: the message is not attached to anything;
+//	     9 = the interface's attach is REFUSED by the bus (another message of it clashes): not attached
 
 type canidStream struct{ baseStream }
 
@@ -109,7 +110,7 @@ func (canidStream) Gen(r *rand.Rand, tier string, idx int) []string {
 			if r.Intn(3) == 0 {
 				head = "-1" // the default builder of the bus (and the routes by which a bus comes back to it)
 			}
-			att := []int{0, 1, 2, 3, 4, 5, 6, 7, 8, 2, 2, 2}[r.Intn(12)]
+			att := []int{0, 1, 2, 3, 4, 5, 6, 7, 8, 9, 2, 2}[r.Intn(12)]
 			sc = append(sc, sprintf("canid get %s %d %d %d %d %d %d", head, r.Intn(2), rnd32(r), att, r.Intn(4), rnd32(r), rnd32(r)))
 		}
 	}
@@ -334,7 +335,44 @@ func (e *canidExec) Do(line string) string {
 				return "err " + err.Error()
 			}
 		}
-		if att == 7 || att == 8 {
+		if att == 9 {
+			// an attach the bus REFUSES: the interface also sends a message whose static CAN-ID is
+			// already taken on the bus; the message under test stays detached (CAN-ID = message id),
+			// whatever builder the bus has or gets afterwards
+			clash := acmelib.CANID(0x7E0)
+			if st == 1 && static == 0x7E0 {
+				clash = 0x7E1
+			}
+			bus := acmelib.NewBus("bus")
+			on := acmelib.NewNode("other", acmelib.NodeID(n+1), 1)
+			oi := on.Interfaces()[0]
+			om := acmelib.NewMessage("taken", acmelib.MessageID(m+1), 8)
+			if om.SetStaticCANID(clash) != nil || oi.AddSentMessage(om) != nil || bus.AddNodeInterface(oi) != nil {
+				return "err setup"
+			}
+			node := acmelib.NewNode("n", acmelib.NodeID(n), 1)
+			ni := node.Interfaces()[0]
+			cm := acmelib.NewMessage("clash", acmelib.MessageID(m+2), 8)
+			if cm.SetStaticCANID(clash) != nil {
+				return "err setup"
+			}
+			first, second := msg, cm
+			if m%2 == 0 {
+				first, second = cm, msg
+			}
+			if ni.AddSentMessage(first) != nil || ni.AddSentMessage(second) != nil {
+				return "err setup"
+			}
+			if !def && p%2 == 0 {
+				bus.SetCANIDBuilder(b)
+			}
+			if err := bus.AddNodeInterface(ni); err == nil {
+				return "err attach-not-refused"
+			}
+			if !def && p%2 == 1 {
+				bus.SetCANIDBuilder(b)
+			}
+		} else if att == 7 || att == 8 {
 			node := acmelib.NewNode("n", acmelib.NodeID(n), 1)
 			ni := node.Interfaces()[0]
 			bus := acmelib.NewBus("bus")
